@@ -25,6 +25,8 @@ def main():
                 caught.append('%s: `%s`' % (c, clip(sig, 90)))
         for extra in m.get('also_caught_by', []):
             caught.append(extra)
+        if m.get('neutralised_by'):
+            caught.append('(no longer breaks the property since the repair %s of /repo)' % m['neutralised_by'])
         print('| %s | %s | %s | %s |' % (m.get('seed_id', os.path.basename(d)), clip(m.get('summary', '')), clip(m.get('needs', m.get('what_it_needs_to_manifest', '')), 200),
                                         '; '.join(caught) or '**not caught**'))
 
